@@ -5,7 +5,8 @@ NAME=$1; shift
 D=/verif/seeded/$NAME
 V=/tmp/mutr-$NAME
 git -C /repo worktree remove --force $V 2>/dev/null
-git -C /repo worktree add -q --detach $V HEAD || exit 3
+BASE=$(python3 -c "import json;print(json.load(open('$D/meta.json')).get('base_commit','HEAD'))" 2>/dev/null || echo HEAD)
+git -C /repo worktree add -q --detach $V $BASE || exit 3
 git -C $V apply $D/patch.diff || { echo "PATCH-DOES-NOT-APPLY"; git -C /repo worktree remove --force $V; exit 3; }
 cd /verif
 for P in "$@"; do
